@@ -2,6 +2,7 @@
 phase by phase) with bad values injected into qpos / qvel / act / ctrl / qfrc_applied / xfrc_applied."""
 import concurrent.futures as cf
 import os
+import zlib
 
 from vlib import build, tlc, drv
 from vlib.check import Machinery, VERIF
@@ -237,7 +238,7 @@ def run(ctx):
                "warning counters are compared as relations to their value at the start of the step",
                "without autoreset nothing is claimed about finiteness once a bad value was allowed to propagate")
     gc = ("-XX:ParallelGCThreads=2",)
-    nsim = 150 if ctx.quick else 12000
+    nsim = 100 if ctx.quick else 12000
 
     def terminal(blk):
         return ("hist", "nsteps") if 'phase = "idle"' in blk and 'op |-> "step"' in blk else None
@@ -266,12 +267,10 @@ def run(ctx):
         for k, want_steps in (("one", 1), ("two", 2)):
             res, states, cleanup = out[k]
             ctx.tlc_ok(res, "Blowup_" + k)
-            n = 0
             for st in states():
                 if st["nsteps"] == want_steps:
-                    n += 1
-                    if k == "two" and ctx.quick and n % 3:
-                        continue                      # quick tier: every third two-step behaviour
+                    if k == "two" and ctx.quick and zlib.crc32(repr(st["hist"]).encode()) % 4:
+                        continue                      # quick tier: a fixed quarter of the two-step behaviours
                     behs.append((k, st["hist"]))
     finally:
         out["one"][2]()
@@ -299,7 +298,7 @@ def run(ctx):
         if key not in seen:
             seen.add(key)
             uniq.append((origin, h))
-    behs = uniq
+    behs = sorted(uniq, key=lambda b: (b[0], repr(b[1])))       # the dump order depends on TLC's worker threads
     if len(behs) < 100:
         raise Machinery("only %d behaviours to replay" % len(behs))
 
